@@ -8,6 +8,7 @@ import (
 	"errors"
 	"fmt"
 	"strings"
+	"sync"
 	"sync/atomic"
 	"time"
 
@@ -29,11 +30,24 @@ type Case struct {
 	OnErr   string   `json:"on_err"`  // what the body does with a statement error: return | ignore
 	Term    string   `json:"term"`    // what the body does after its last statement: nil | err | typednil | panic:<kind>
 	End     string   `json:"end"`     // none | commit (driver Commit fails) | rollback (driver Rollback fails)
+
+	// context-fault family (ctxfam.go): the caller's context ends at a placed point of the call
+	CtxKind string `json:"ctx_kind,omitempty"` // cancel | deadline
+	CtxAt   string `json:"ctx_at,omitempty"`   // open | begin | stmt | end (inside that driver callback) | pre (by the body) | pool (while Begin waits for a pooled connection)
+	CtxK    int    `json:"ctx_k,omitempty"`    // pre: before statement k (len+1: before the terminal); stmt: inside statement k
+	CtxCall int    `json:"ctx_call,omitempty"` // stmt: inside the n-th statement-level driver call of statement k
+	CtxRes  string `json:"ctx_res,omitempty"`  // ok (the driver call completes all the same) | ctxerr (it answers ctx.Err())
 }
 
+func (c Case) ctxFam() bool { return c.CtxKind != "" }
+
 func (c Case) key() string {
-	return fmt.Sprintf("%s|%s|%s|%s|%s|%d|%s|%s|%s|%s", c.API, strings.Join(c.Kinds, ","), c.Flavour, c.Begin,
+	k := fmt.Sprintf("%s|%s|%s|%s|%s|%d|%s|%s|%s|%s", c.API, strings.Join(c.Kinds, ","), c.Flavour, c.Begin,
 		c.Ctx, c.FailAt, c.Mode, c.OnErr, c.Term, c.End)
+	if c.ctxFam() {
+		k += fmt.Sprintf("|%s|%s|%d|%d|%s", c.CtxKind, c.CtxAt, c.CtxK, c.CtxCall, c.CtxRes)
+	}
+	return k
 }
 
 func (c Case) String() string {
@@ -46,6 +60,23 @@ func (c Case) String() string {
 	}
 	if c.FailAt > 0 {
 		s += fmt.Sprintf(" stmt#%d fails(%s) body-%ss-it", c.FailAt, c.Mode, c.OnErr)
+	}
+	if c.ctxFam() {
+		switch c.CtxAt {
+		case "":
+			s += " ctx(" + c.CtxKind + ") never ends"
+		case "pre":
+			s += fmt.Sprintf(" ctx-%s by the body before stmt#%d", c.CtxKind, c.CtxK)
+		case "stmt":
+			s += fmt.Sprintf(" ctx-%s inside driver call %d of stmt#%d (call answers %s)", c.CtxKind, c.CtxCall, c.CtxK, c.CtxRes)
+		case "pool":
+			s += " ctx-" + c.CtxKind + " while Begin waits for the only pooled connection"
+		default:
+			s += fmt.Sprintf(" ctx-%s inside the driver's %s callback (call answers %s)", c.CtxKind, c.CtxAt, c.CtxRes)
+		}
+		if c.FailAt == 0 && c.CtxAt != "" {
+			s += " body-" + c.OnErr + "s-errors"
+		}
 	}
 	s += " then=" + c.Term
 	if c.End != "none" {
@@ -60,21 +91,37 @@ type apiSpec struct {
 	ctor   string // fromdb | newconn
 	cached string // "", custom, node, conf
 	via    string // how the body talks to the session: direct | wrap (NewSqlConnFromSession) | withsession (CachedConn.WithSession)
+	opt    string // "", acceptable (constructed with sqlx.WithAcceptable)
+}
+
+// ctxAPIs are the entry points of the context-fault family: every one that takes a context.
+var ctxAPIs = []apiSpec{
+	{"sqlx.NewSqlConnFromDB.TransactCtx", true, "fromdb", "", "direct", ""},
+	{"sqlx.NewSqlConn.TransactCtx", true, "newconn", "", "wrap", ""},
+	{"sqlc.NewConnWithCache.TransactCtx", true, "fromdb", "custom", "withsession", ""},
+	{"sqlc.NewConn.TransactCtx", true, "fromdb", "conf", "direct", ""},
+	{"sqlx.NewSqlConnFromDB(WithAcceptable).TransactCtx", true, "fromdb", "", "wrap", "acceptable"},
+	{"sqlc.NewNodeConn(sqlx.NewSqlConn(WithAcceptable)).TransactCtx", true, "newconn", "node", "withsession", "acceptable"},
 }
 
 var apis = []apiSpec{
-	{"sqlx.NewSqlConnFromDB.Transact", false, "fromdb", "", "direct"},
-	{"sqlx.NewSqlConnFromDB.TransactCtx", true, "fromdb", "", "direct"},
-	{"sqlx.NewSqlConn.Transact", false, "newconn", "", "wrap"},
-	{"sqlx.NewSqlConn.TransactCtx", true, "newconn", "", "wrap"},
-	{"sqlc.NewConnWithCache.Transact", false, "fromdb", "custom", "direct"},
-	{"sqlc.NewConnWithCache.TransactCtx", true, "fromdb", "custom", "withsession"},
-	{"sqlc.NewNodeConn.Transact", false, "fromdb", "node", "withsession"},
-	{"sqlc.NewConn.TransactCtx", true, "fromdb", "conf", "direct"},
+	{"sqlx.NewSqlConnFromDB.Transact", false, "fromdb", "", "direct", ""},
+	{"sqlx.NewSqlConnFromDB.TransactCtx", true, "fromdb", "", "direct", ""},
+	{"sqlx.NewSqlConn.Transact", false, "newconn", "", "wrap", ""},
+	{"sqlx.NewSqlConn.TransactCtx", true, "newconn", "", "wrap", ""},
+	{"sqlc.NewConnWithCache.Transact", false, "fromdb", "custom", "direct", ""},
+	{"sqlc.NewConnWithCache.TransactCtx", true, "fromdb", "custom", "withsession", ""},
+	{"sqlc.NewNodeConn.Transact", false, "fromdb", "node", "withsession", ""},
+	{"sqlc.NewConn.TransactCtx", true, "fromdb", "conf", "direct", ""},
 }
 
 func apiByName(n string) (apiSpec, bool) {
 	for _, a := range apis {
+		if a.name == n {
+			return a, true
+		}
+	}
+	for _, a := range ctxAPIs {
 		if a.name == n {
 			return a, true
 		}
@@ -96,6 +143,13 @@ type Obs struct {
 	TermReached                                        bool
 	NestedRan                                          int
 	NestedErrs                                         []string
+
+	HitCtx                 bool   // the context ended at the planned point
+	Async                  bool   // ... inside a driver callback that did not run below the harness' call
+	Gate                   string // how that callback was let go: returned (the call had returned) | expired
+	CommitErr, RollbackErr error  // what the driver answered to Commit / Rollback
+	Deferred               bool   // parallel pass only: something was still going on when the call returned; judged in the sequential pass
+	Inconclusive           string // sequential pass: could not wait for the end of all activity (never a verdict)
 }
 
 type typedNilErr struct{}
@@ -157,32 +211,45 @@ func (nopCache) TakeWithExpireCtx(_ context.Context, v any, _ string, q func(any
 var _ cache.Cache = nopCache{}
 
 var redisAddr string // miniredis, started once in main
+var flushCache func()
 
 // worker is the per-goroutine context: the datasource names it uses with sqlx.NewSqlConn (whose
-// *sql.DB is cached per datasource by go-zero and therefore shared by this worker's cases, as in
-// production) and the redis handle given to sqlc.NewNodeConn.
+// *sql.DB is cached per datasource by go-zero and therefore shared by this worker's consecutive
+// cases, as in production) and the redis handle given to sqlc.NewNodeConn.
 type worker struct {
 	dsn, dsnOpenFail string
 	slot             *slot
 	rds              *redis.Redis
+	fresh            bool // the datasource has not been used yet (no cached *sql.DB, no pooled connection)
+	seq              bool // sequential pass: this is the only case running in the process (see settle)
 }
 
-var workerSeq atomic.Int64
+var workerSeq, cacheKeySeq atomic.Int64
 
 func newWorker() *worker {
-	w := &worker{slot: &slot{}, rds: redis.New(redisAddr)}
+	w := &worker{rds: redis.New(redisAddr)}
 	w.renew()
 	return w
 }
 
-// renew gives the worker fresh datasource names (hence a fresh cached *sql.DB). Used after a
-// case left a connection checked out, so that a leaking implementation cannot exhaust the
-// shared pool and hang later cases instead of being reported.
+// renew gives the worker fresh datasource names (hence a fresh cached *sql.DB) and a fresh slot.
+// Used after a case left a connection checked out or anything still running, so that a leaking
+// implementation cannot exhaust the shared pool and hang later cases instead of being reported,
+// and late driver calls of an earlier case cannot land in a later case's log.
 func (w *worker) renew() {
+	if w.dsn != "" && !w.fresh {
+		// go-zero keeps the *sql.DB of the abandoned datasource for ever: close it (its goroutines,
+		// its connection); the datasource name is never used again
+		if d, err := sqlx.NewSqlConn(driverName, w.dsn).RawDB(); err == nil {
+			d.Close()
+		}
+	}
 	id := workerSeq.Add(1)
+	w.slot = &slot{}
 	w.dsn, w.dsnOpenFail = fmt.Sprintf("c14#%d", id), fmt.Sprintf("c14#%d#noconn", id)
 	registry.Store(w.dsn, w.slot)
 	registry.Store(w.dsnOpenFail, w.slot)
+	w.fresh = true
 }
 
 const (
@@ -202,9 +269,44 @@ type runner struct {
 	r      *rec
 	o      *Obs
 	cc     *sqlc.CachedConn
-	cancel context.CancelFunc
+	cancel func()
 	ret    bool
 }
+
+// endableCtx is a context the harness ends by hand as a DEADLINE: Err() turns into
+// context.DeadlineExceeded at a placed point instead of at a wall-clock instant.
+type endableCtx struct {
+	mu   sync.Mutex
+	done chan struct{}
+	err  error
+}
+
+var farDeadline = time.Date(2100, 1, 1, 0, 0, 0, 0, time.UTC)
+
+func (c *endableCtx) Deadline() (time.Time, bool) { return farDeadline, true }
+func (c *endableCtx) Done() <-chan struct{}       { return c.done }
+func (c *endableCtx) Value(any) any               { return nil }
+func (c *endableCtx) Err() error {
+	c.mu.Lock()
+	defer c.mu.Unlock()
+	return c.err
+}
+func (c *endableCtx) end() {
+	c.mu.Lock()
+	if c.err == nil {
+		c.err = context.DeadlineExceeded
+		close(c.done)
+	}
+	c.mu.Unlock()
+}
+
+func errorOpt(err error) bool { return errors.Is(err, errOwn) }
+
+const (
+	gateWaitParallel   = 50 * time.Millisecond
+	gateWaitSequential = 500 * time.Millisecond
+	settleLimit        = 5 * time.Second
+)
 
 // runCase builds a fresh driver recorder, a fresh sql.DB, a fresh SqlConn (fresh breaker) and,
 // for the sqlc entry points, a fresh CachedConn; runs the case once; returns what happened.
@@ -214,24 +316,67 @@ func runCase(c Case, w *worker) *Obs {
 		panic("unknown api " + c.API)
 	}
 	r := &rec{skip: c.Flavour == "skip", failOpen: c.Begin == "openfail", failBegin: c.Begin == "fail",
-		failCommit: c.End == "commit", failRollback: c.End == "rollback"}
+		failCommit: c.End == "commit", failRollback: c.End == "rollback", armCtx: -1,
+		returned: make(chan struct{}), gateWait: gateWaitParallel}
+	if w.seq {
+		r.gateWait = gateWaitSequential
+	}
+	switch c.CtxAt {
+	case "open", "begin", "end":
+		r.ctxAt = c.CtxAt
+	}
+	r.ctxRes = c.CtxRes
 	o := &Obs{InUse: -1}
 	x := &runner{c: c, a: a, r: r, o: o}
 
+	var ctx context.Context
+	if c.CtxKind == "deadline" {
+		e := &endableCtx{done: make(chan struct{})}
+		ctx, x.cancel = e, e.end
+	} else {
+		cctx, cancel := context.WithCancel(context.Background())
+		defer cancel()
+		ctx, x.cancel = cctx, cancel
+	}
+	r.endCtx = func() error { x.cancel(); return ctx.Err() }
+	if c.Ctx == "pre" {
+		x.cancel()
+	}
+
+	// The case needs the connection to be opened by this call. sqlx.NewSqlConn: either a datasource
+	// nobody has used yet (go-zero then opens and pings inside the call; go-zero keeps every
+	// datasource's *sql.DB for ever, so this form is limited to short bodies), or the idle
+	// connections of the worker's datasource are dropped (database/sql then opens one inside Begin).
+	needFresh := a.ctor == "newconn" && (c.CtxAt == "pool" || (c.CtxAt == "open" && len(c.Kinds) <= 1))
+	if needFresh && !w.fresh {
+		w.renew()
+	}
+	if a.ctor == "newconn" && c.CtxAt == "open" && !needFresh && !w.fresh && c.Begin != "openfail" {
+		if d, err := sqlx.NewSqlConn(driverName, w.dsn).RawDB(); err == nil {
+			d.SetMaxIdleConns(0) // closes the idle connections (seen by the previous case's recorder)
+			d.SetMaxIdleConns(64)
+		}
+	}
 	w.slot.cur.Store(r)
+	var opts []sqlx.SqlOption
+	if a.opt == "acceptable" {
+		opts = append(opts, sqlx.WithAcceptable(errorOpt))
+	}
 	var sc sqlx.SqlConn
 	var db *sql.DB
 	switch a.ctor {
 	case "fromdb":
 		db = sql.OpenDB(connector{w.slot})
 		defer db.Close()
-		sc = sqlx.NewSqlConnFromDB(db)
+		sc = sqlx.NewSqlConnFromDB(db, opts...)
 	case "newconn":
 		dsn := w.dsn
 		if c.Begin == "openfail" {
 			dsn = w.dsnOpenFail // never cached by go-zero: opening it always fails
+		} else {
+			w.fresh = false
 		}
-		sc = sqlx.NewSqlConn(driverName, dsn)
+		sc = sqlx.NewSqlConn(driverName, dsn, opts...)
 	}
 	var t transactor = sc
 	switch a.cached {
@@ -246,27 +391,20 @@ func runCase(c Case, w *worker) *Obs {
 		x.cc, t = &cc, cc
 	}
 
-	ctx, cancel := context.WithCancel(context.Background())
-	defer cancel()
-	x.cancel = cancel
-	if c.Ctx == "pre" {
-		cancel()
+	if c.CtxAt == "pool" {
+		db = x.runPool(t, ctx, sc, db)
+	} else {
+		x.invoke(t, ctx)
 	}
 
-	func() {
-		defer func() {
-			p := recover()
-			if !x.ret { // Transact/TransactCtx did not return normally
-				o.Escaped, o.DidEscape = p, true
-			}
-		}()
-		if a.ctxAPI {
-			o.Err = t.TransactCtx(ctx, x.body)
-		} else {
-			o.Err = t.Transact(func(s sqlx.Session) error { return x.body(context.Background(), s) })
+	if w.seq {
+		// nothing else runs in this process: wait until nobody can touch the transaction any more
+		if inc := settle(settleLimit); inc != "" && o.Inconclusive == "" {
+			o.Inconclusive = inc
 		}
-		x.ret = true
-	}()
+	} else if r.unsettled() || r.isAsync() {
+		o.Deferred = true
+	}
 
 	if db == nil && c.Begin != "openfail" {
 		// the *sql.DB created by sqlx's connection manager
@@ -276,15 +414,100 @@ func runCase(c Case, w *worker) *Obs {
 	}
 	if db != nil {
 		o.InUse = db.Stats().InUse
-		if o.InUse != 0 && a.ctor == "newconn" {
-			w.renew()
+		if a.ctor == "newconn" {
+			if needFresh || o.Deferred || o.Inconclusive != "" || o.InUse != 0 {
+				w.renew() // closes the datasource's *sql.DB: not used again
+			}
 		}
+	}
+	if o.Deferred && a.ctor != "newconn" {
+		w.renew() // a fresh slot: late driver calls of this case stay in this case's recorder
 	}
 	o.Log = r.snapshot()
 	r.mu.Lock()
 	o.HitOpen, o.HitBegin, o.HitStmt, o.HitCommit, o.HitRollback = r.hitOpen, r.hitBegin, r.hitStmt, r.hitCommit, r.hitRollback
+	o.HitCtx, o.Async, o.Gate = o.HitCtx || r.hitCtx, r.async, r.gate
+	o.CommitErr, o.RollbackErr = r.commitErr, r.rollbackErr
 	r.mu.Unlock()
 	return o
+}
+
+func (r *rec) isAsync() bool {
+	r.mu.Lock()
+	defer r.mu.Unlock()
+	return r.async
+}
+
+// invoke is the harness' call of the entry point (its frame is what onCallerGoroutine looks for).
+//
+//go:noinline
+func (x *runner) invoke(t transactor, ctx context.Context) {
+	defer func() {
+		p := recover()
+		if !x.ret { // Transact/TransactCtx did not return normally
+			x.o.Escaped, x.o.DidEscape = p, true
+		}
+		close(x.r.returned)
+	}()
+	if x.a.ctxAPI {
+		x.o.Err = t.TransactCtx(ctx, x.body)
+	} else {
+		x.o.Err = t.Transact(func(s sqlx.Session) error { return x.body(context.Background(), s) })
+	}
+	x.ret = true
+}
+
+// runPool: the pool has one connection and it is busy; the call is made on a goroutine of its
+// own; once it is stuck (waiting for the connection) the context ends; the connection is given
+// back only after the call has returned or is still stuck — so Begin completes after the caller's
+// context ended. Sequential pass only (needs the goroutine census of settle).
+func (x *runner) runPool(t transactor, ctx context.Context, sc sqlx.SqlConn, db *sql.DB) *sql.DB {
+	if db == nil {
+		d, err := sc.RawDB()
+		if err != nil {
+			x.o.Inconclusive = "pool: no *sql.DB: " + err.Error()
+			close(x.r.returned)
+			return nil
+		}
+		db = d
+	}
+	db.SetMaxOpenConns(1)
+	busy, err := db.Conn(context.Background())
+	if err != nil {
+		x.o.Inconclusive = "pool: cannot take the connection: " + err.Error()
+		close(x.r.returned)
+		return db
+	}
+	go x.invoke(t, ctx)
+	returned := func() bool {
+		select {
+		case <-x.r.returned:
+			return true
+		default:
+			return false
+		}
+	}
+	// until the call has returned, or Begin queues for the connection, or nothing moves any more
+	waitStuck := func(queued bool) {
+		deadline := time.Now().Add(4 * settleLimit)
+		for !returned() && !(queued && db.Stats().WaitCount > 0) && len(activeGoroutines()) > 0 && time.Now().Before(deadline) {
+			time.Sleep(50 * time.Microsecond)
+		}
+	}
+	waitStuck(true)
+	if !returned() {
+		x.r.add("ctx!")
+		x.o.HitCtx = true
+		x.cancel()
+		waitStuck(false) // the caller may give up now; if it does not, it is still stuck
+	}
+	busy.Close()
+	select {
+	case <-x.r.returned:
+	case <-time.After(2 * settleLimit):
+		x.o.Inconclusive = "pool: the call did not return after the connection was given back"
+	}
+	return db
 }
 
 // body is the transaction body handed to go-zero.
@@ -297,18 +520,31 @@ func (x *runner) body(ctx context.Context, sess sqlx.Session) (err error) {
 		x.cancel()
 	}
 	for i, kind := range c.Kinds {
+		if c.CtxAt == "pre" && c.CtxK == i+1 {
+			x.endByBody()
+		}
 		armed := c.FailAt == i+1
 		if armed {
 			x.r.setArm(c.Mode)
+		}
+		armedCtx := c.CtxAt == "stmt" && c.CtxK == i+1
+		if armedCtx {
+			x.r.setArmCtx(c.CtxCall - 1)
 		}
 		e := x.step(ctx, sess, kind)
 		if armed {
 			x.r.disarm()
 		}
+		if armedCtx {
+			x.r.setArmCtx(-1)
+		}
 		if e != nil && c.OnErr == "return" {
 			o.BodyOutcome = "err"
 			return e
 		}
+	}
+	if c.CtxAt == "pre" && c.CtxK == len(c.Kinds)+1 {
+		x.endByBody()
 	}
 	o.TermReached = true
 	switch {
@@ -327,6 +563,12 @@ func (x *runner) body(ctx context.Context, sess sqlx.Session) (err error) {
 		doPanic(strings.TrimPrefix(c.Term, "panic:"))
 	}
 	panic("c14: bad terminal " + c.Term)
+}
+
+func (x *runner) endByBody() {
+	x.r.add("ctx!")
+	x.o.HitCtx = true
+	x.cancel()
 }
 
 // step runs one body statement through the session the way the entry point's "via" says.
@@ -366,6 +608,63 @@ func (x *runner) step(ctx context.Context, sess sqlx.Session, kind string) error
 			return s.QueryRowCtx(ctx, &v, qQuery, 1)
 		default:
 			return s.QueryRow(&v, qQuery, 1)
+		}
+	case "cexec", "cquery":
+		// CachedConn.ExecCtx / QueryRowCtx on WithSession(tx): the statement goes through the cache
+		// layer (delete the key after the exec; take the key, query on a miss). A key per statement:
+		// no case depends on what an earlier one left in the cache.
+		if ccs == nil {
+			panic("c14: " + kind + " needs a withsession entry point")
+		}
+		kn := cacheKeySeq.Add(1)
+		key := fmt.Sprintf("c14:k:%d", kn)
+		if kn%8192 == 0 && flushCache != nil {
+			flushCache() // no key is ever read again after its statement: keeps miniredis small
+		}
+		if kind == "cexec" {
+			var err error
+			if useCtx {
+				_, err = ccs.ExecCtx(ctx, func(ctx context.Context, conn sqlx.SqlConn) (sql.Result, error) {
+					return conn.ExecCtx(ctx, qExec, 5)
+				}, key)
+			} else {
+				_, err = ccs.Exec(func(conn sqlx.SqlConn) (sql.Result, error) { return conn.Exec(qExec, 5) }, key)
+			}
+			return err
+		}
+		if useCtx {
+			return ccs.QueryRowCtx(ctx, &v, key, func(ctx context.Context, conn sqlx.SqlConn, v any) error {
+				return conn.QueryRowCtx(ctx, v, qQuery, 1)
+			})
+		}
+		return ccs.QueryRow(&v, key, func(conn sqlx.SqlConn, v any) error { return conn.QueryRow(v, qQuery, 1) })
+	case "queryrows", "querypartial", "queryrowspartial":
+		var vs []int
+		switch {
+		case kind == "queryrows" && ccs != nil && useCtx:
+			return ccs.QueryRowsNoCacheCtx(ctx, &vs, qQuery, 1)
+		case kind == "queryrows" && ccs != nil:
+			return ccs.QueryRowsNoCache(&vs, qQuery, 1)
+		case kind == "queryrows" && useCtx:
+			return s.QueryRowsCtx(ctx, &vs, qQuery, 1)
+		case kind == "queryrows":
+			return s.QueryRows(&vs, qQuery, 1)
+		case kind == "querypartial" && ccs != nil && useCtx:
+			return ccs.QueryRowPartialNoCacheCtx(ctx, &v, qQuery, 1)
+		case kind == "querypartial" && ccs != nil:
+			return ccs.QueryRowPartialNoCache(&v, qQuery, 1)
+		case kind == "querypartial" && useCtx:
+			return s.QueryRowPartialCtx(ctx, &v, qQuery, 1)
+		case kind == "querypartial":
+			return s.QueryRowPartial(&v, qQuery, 1)
+		case ccs != nil && useCtx:
+			return ccs.QueryRowsPartialNoCacheCtx(ctx, &vs, qQuery, 1)
+		case ccs != nil:
+			return ccs.QueryRowsPartialNoCache(&vs, qQuery, 1)
+		case useCtx:
+			return s.QueryRowsPartialCtx(ctx, &vs, qQuery, 1)
+		default:
+			return s.QueryRowsPartial(&vs, qQuery, 1)
 		}
 	case "prepexec", "prepquery":
 		q := qExec
